@@ -32,6 +32,7 @@ type C10Notif struct {
 
 type C10Call struct {
 	Notifs []C10Notif `json:"notifs"`
+	Fail   bool       `json:"fail,omitempty"` // the handler returns an error after emitting (the notifications were emitted all the same; the stream ends with an error answer)
 }
 
 type C10Case struct {
@@ -45,6 +46,9 @@ type C10Case struct {
 	// flight; afterwards one more call emits notifications for some of them: a handler whose registration has returned
 	// receives the notifications of every later call, whatever was in flight while it was registered.
 	Late int `json:"late,omitempty"`
+	// Lives: before the calls the client is closed and initialized again this many times (handlers are registered after the last
+	// handshake): a client's later lives deliver like its first
+	Lives int `json:"lives,omitempty"`
 }
 
 var c10Methods = []string{"notifications/progress", "notifications/message", "notifications/custom-a", "custom/b", "x"}
@@ -82,7 +86,11 @@ func genC10(t *rapid.T) C10Case {
 			}
 			call.Notifs = append(call.Notifs, nf)
 		}
+		call.Fail = rapid.IntRange(0, 5).Draw(t, "callfails") == 0
 		c.Calls = append(c.Calls, call)
+	}
+	if rapid.IntRange(0, 4).Draw(t, "lives") == 0 {
+		c.Lives = rapid.IntRange(1, 2).Draw(t, "nlives")
 	}
 	for _, m := range c10Methods {
 		if rapid.IntRange(0, 2).Draw(t, "handler") != 0 {
@@ -241,6 +249,9 @@ func execC10(c C10Case) *Failure {
 				emitErrs.Store(tag, err)
 			}
 		}
+		if c.Calls[ci].Fail {
+			return nil, fmt.Errorf("failed-%d", ci)
+		}
 		return mcp.NewTextResult(fmt.Sprintf("done-%d", ci)), nil
 	})
 	for a := 0; a < c.Abandon; a++ {
@@ -265,6 +276,15 @@ func execC10(c C10Case) *Failure {
 		return Failf("C10/connect", "%v", err)
 	}
 	defer lc.Close()
+	for l := 0; l < c.Lives; l++ {
+		lc.C.Close()
+		ictx, icancel := context.WithTimeout(context.Background(), 10*time.Second)
+		_, err := lc.C.Initialize(ictx, &mcp.InitializeRequest{})
+		icancel()
+		if err != nil {
+			return Failf("C10/connect", "%s: Initialize after Close (life %d): %v", c.Mode, l+2, err)
+		}
+	}
 	var seq atomic.Int64
 	var mu sync.Mutex
 	seen := map[int][]c10Seen{} // call index -> notifications recorded
@@ -336,6 +356,11 @@ func execC10(c C10Case) *Failure {
 			req.Params.Arguments = map[string]interface{}{"call": ci}
 			res, err := lc.C.CallTool(ctx, req)
 			d := done{seq: seq.Add(1), err: err}
+			if err != nil && c.Calls[ci].Fail && strings.Contains(err.Error(), fmt.Sprintf("failed-%d", ci)) {
+				d.err, d.text = nil, fmt.Sprintf("done-%d", ci) // the handler's own error, delivered as such: the expected outcome of this call
+			} else if err == nil && c.Calls[ci].Fail {
+				d.err = fmt.Errorf("the call returned a result although its handler failed")
+			}
 			if err == nil && len(res.Content) == 1 {
 				if tc, ok := res.Content[0].(mcp.TextContent); ok {
 					d.text = tc.Text
@@ -384,7 +409,7 @@ func execC10(c C10Case) *Failure {
 		return Failf("C10/unattributable-notification", "%s: a handler received %s %v, which no call emitted", c.Mode, seen[-1][0].method, seen[-1][0].params)
 	}
 	for ci, call := range c.Calls {
-		where := fmt.Sprintf("%s call %d (%d notifications emitted, handlers %v, %d concurrent calls)", c.Mode, ci, len(call.Notifs), c.Handlers, len(c.Calls))
+		where := fmt.Sprintf("%s call %d (%d notifications emitted, handler fails=%v, handlers %v, %d concurrent calls, client life %d)", c.Mode, ci, len(call.Notifs), call.Fail, c.Handlers, len(c.Calls), c.Lives+1)
 		if results[ci].err != nil {
 			f := Failf("C10/result-lost", "%s: CallTool failed: %v", where, results[ci].err)
 			f.Timing = isTimeoutText(results[ci].err.Error())
